@@ -591,6 +591,25 @@ def r09_6(ctx):
             ok = items is not None and len(items) == size and all(wire.value_equal(a, b) for a, b in zip(items, bs)) and holder['f'].pos == size
         ctx.require(ok, 'R09.6', f'read_bytes(size={size})', w, f'read_bytes(file of 5 bytes, {size}) gives {outs} and leaves the file at {holder["f"].pos}',
                     construct=f'{rb.qname}::shape')
+    # ... also for payloads longer than any block a bulk reader may use: exactly `size` items, the rest stays in the file
+    for size in (4095, 4096, 4097, 5000, 8192, 8193):
+        big = [i % 251 for i in range(size + 3)]
+        holder = {}
+
+        def thunk_big():
+            f_ = AFile(stream=list(big), name='in')
+            holder['f'] = f_
+            return ai0.call_function(rb, [f_, size], {})
+        ai0.steps = 0
+        outs = ai0.explore(thunk_big)
+        ok = len(outs) == 1 and outs[0].kind == 'return'
+        if ok:
+            v = outs[0].value
+            items = list(v.items) if isinstance(v, AList) else list(v) if isinstance(v, (list, bytes, bytearray)) else None
+            ok = items is not None and items == big[:size] and holder['f'].pos == size
+        ctx.require(ok, 'R09.6', f'read_bytes(size={size})', w,
+                    f'read_bytes(file of {size + 3} bytes, {size}) returns {len(items) if ok is False and outs and outs[0].kind == "return" and items is not None else "?"} '
+                    f'items / leaves the file at {holder["f"].pos}: {str(outs)[:160]}', construct=f'{rb.qname}::shape')
     outs = ai0.explore(lambda: ai0.call_function(rb, [AFile(stream=list(bs[:2]), name='in'), 3], {}))
     ctx.require(bool(outs) and all(o_.kind == 'raise' and o_.exc == 'EOFError' for o_ in outs), 'R09.6', 'read_bytes(past the end)', w,
                 f'reading 3 bytes from a 2 byte file gives {outs}; expected EOFError', construct=f'{rb.qname}::eof')
@@ -626,5 +645,12 @@ def r09_codec(ctx):
     ctx.borrow(c17.r17_4, 'R09.7')
 
 
-RULES = [('R09-vlq', r09_vlq), ('R09.7', r09_codec), ('R09-registry', r09_registry), ('R09.3', r09_3), ('R09.1', r09_1), ('R09-tables', r09_tables), ('R09.2', r09_2),
+def r09_default_charset(ctx):
+    """A text meta message encoded by bytes() and a default MidiFile reading it agree on the charset: the process-wide default
+    and the default of the charset argument are the same latin1 (shared with C17 R17.2)."""
+    from . import c17
+    ctx.borrow(c17.r17_2, 'R09.8')
+
+
+RULES = [('R09.8', r09_default_charset), ('R09-vlq', r09_vlq), ('R09.7', r09_codec), ('R09-registry', r09_registry), ('R09.3', r09_3), ('R09.1', r09_1), ('R09-tables', r09_tables), ('R09.2', r09_2),
          ('R09.4', r09_4), ('R09.5', r09_5), ('R09.6', r09_6)]
